@@ -22,12 +22,51 @@ def real_plans(tier):
             dict(real=True, sets="WebMercatorQuad,UPSAntarcticWGS84Quad", gens="spiky", variants="base,keep", n=200 if q else 8000, seed=s + 51, where="f4,interior")]
 
 
+def split_part(tier, drv, cov):
+    """SplitRing.tla: splitRing as the code does it (stack of partial rings, panic guard, classification) transcribed; TLC
+    enumerates closed label sequences x hit-multiple sets and shows: no panic, edges conserved, loops simple; every input is
+    replayed through the real splitRing as outer and as inner ring (SplitRingTrace.tla)."""
+    import concurrent.futures
+    import json
+    cfg = "MC_SplitRing_quick.cfg" if tier == "quick" else "MC_SplitRing_thorough.cfg"
+    r = vlib.run_tlc("SplitRing", cfg, timeout=7200, heap="8g", gc="parallel")
+    if not r.ok:
+        raise vlib.Broken("design model SplitRing/%s fails: %s\n%s" % (cfg, r.violated or r.error, r.trace_text[:2000]))
+    if len(r.vecs) < 10000:
+        raise vlib.Broken("expected at least 10000 inputs from MC_SplitRing, got %d" % len(r.vecs))
+    p = vlib.run([drv, "split-replay"], input="\n".join(json.dumps(x) for x in r.vecs) + "\n", timeout=1800)
+    if p.returncode != 0:
+        raise vlib.Broken("split-replay failed: " + p.stderr[-2000:])
+    lines = p.stdout.splitlines()
+    anomalies = []
+    states = 0
+    chunks = [lines[i::8] for i in range(8)]
+    with concurrent.futures.ThreadPoolExecutor(max_workers=8) as ex:
+        futs = [ex.submit(vlib.validate_records, "SplitRingTrace", "SplitRingTrace.cfg", "split_trace.ndjson", c, None, 2, 3600, 3,
+                          lambda inv, idx, line: anomalies.append((inv, line))) for c in chunks]
+        for f in futs:
+            states += f.result()[0]
+    cov["splitring_model"] = {"model": cfg, "states": r.distinct, "inputs": len(r.vecs), "wall_s": round(r.wall, 1)}
+    cov["splitring_records_replayed"] = len(lines)
+    cov["splitring_anomalies"] = len(anomalies)
+    cov["states"] += r.distinct + states
+    cov["traces_validated_against_impl"] += len(lines)
+    return anomalies
+
+
 def run(tier):
     def extra(drv, d):
         kl, sl, nseq, r = snapcheck.chains_lines(drv, tier)
         return sl
+
+    def post(v, drv, cov):
+        anomalies = split_part(tier, drv, cov)
+        if anomalies and not v.violations:
+            # label rings with arbitrary hit-multiple sets are not shown reachable from a polygon: no verdict on C05 from them
+            raise vlib.Broken("the real splitRing differs from SplitRing.tla on %d record(s), e.g. %s (%s): the design results do not "
+                              "transfer to this code, and no polygon-level failure was found" % (len(anomalies), anomalies[0][1][:400], anomalies[0][0]))
     return snapcheck.run_snap_property(
-        PROP, tier, "SnapTrace_C05.cfg", plans(tier), extra_lines=extra, real_plans=real_plans(tier), real_cfg="RealTrace_C05.cfg",
+        PROP, tier, "SnapTrace_C05.cfg", plans(tier), extra_lines=extra, post=post, real_plans=real_plans(tier), real_cfg="RealTrace_C05.cfg",
         rule="arbitrary vertex sequences from small point pools (repeated vertices, spikes, rings of 0-2 points, up to 3 rings) and valid "
              "polygons, each run with keep-points-and-lines off and on (and reverse toggled); ring structure, orientation by sign of area, "
              "collapse policy and the keep/no-keep relation judged by TLC")
